@@ -1258,6 +1258,24 @@ func nestPrograms() []*Program {
 		p.Forks = []string{"Frontier", "London"}
 		out = append(out, p)
 	}
+	// the same recursion, and the frame whose call was refused for depth then issues a CREATE at that depth: it is refused up front
+	// as well and it is a call attempt the call tree has to show (before EIP-150 only: afterwards the gas runs out before the limit)
+	{
+		c := &code{}
+		c.pushN(0).pushN(0).pushN(0).pushN(0).pushN(0).op(0x30).pushN(512).op(0x5a, 0x03, 0xf1)
+		t := &code{}
+		t.pushN(0).pushN(0).pushN(0).op(0xf0, 0x50, 0x00)
+		c.pushN(uint64(len(c.b) + 3 + len(t.b))).op(0x57)
+		c.b = append(c.b, t.b...)
+		c.op(0x5b, 0x00)
+		for _, f := range []string{"Frontier"} {
+			p := base("nest:depthlimit-create-"+f, c.b)
+			p.Gas = 2_000_000_000
+			p.Limit = 20000
+			p.Forks = []string{f}
+			out = append(out, p)
+		}
+	}
 	for _, k1 := range kinds {
 		for _, k2 := range kinds[:3] {
 			for _, e1 := range en {
